@@ -443,7 +443,14 @@ func TestReplay(t *testing.T) {
 			specs = []opSpec{ops[(n+int(vh.Seed()))%len(ops)]}
 		}
 		for _, spec := range specs {
+			// what a server writes in a Result Message is free text: per cent signs, braces and line breaks are part of it
 			msg := fmt.Sprintf("msg-%d", n)
+			switch n % 4 {
+			case 1:
+				msg += ": quota 100% used, 5%d left (%s) %!"
+			case 2:
+				msg += ": {\"k\": \"v\"}\n second line %v %[3]q"
+			}
 			r := runCase(c, spec, msg)
 			runs++
 			out.Emit(map[string]any{"case": n, "op": spec.name, "got": r})
